@@ -196,6 +196,14 @@ Theorem C03_subtree_range : forall T h q r, 1 <= T < 2 ^ 31 -> Height T = Z.of_n
 Proof. exact subtree_range. Qed.
 Print Assumptions C03_subtree_range.
 
+(** ... and nothing else does: a stored node r lies below q (or is q) iff its index is in that range *)
+Theorem C03_subtree_exact : forall T h q r i s j, 1 <= T < 2 ^ 31 -> Height T = Z.of_nat h ->
+  (length q <= h)%nat -> (length r <= h)%nat -> stored T r = true ->
+  PathToIndexLoose T (enc h q) = Some (i, s) -> PathToIndex T (enc h r) = Some j ->
+  ((exists r', r = q ++ r') <-> i <= j < i + T / 2 ^ Z.of_nat (length q)).
+Proof. exact subtree_exact_idx. Qed.
+Print Assumptions C03_subtree_exact.
+
 (** the left child follows its parent immediately, the right child follows the whole left subtree *)
 Theorem C03_child : forall T h q (b : bool) i s, 1 <= T < 2 ^ 31 -> Height T = Z.of_nat h ->
   (length q < h)%nat -> PathToIndexLoose T (enc h q) = Some (i, s) ->
